@@ -78,6 +78,19 @@ static void on_fault(int sig, siginfo_t* si, void* uc)
     siglongjmp(g_fault_env, 1);
 }
 
+/* watchdog: a call into the code under test that does not return. A periodic timer looks at the progress counters; if a
+ * guarded call is in flight and nothing has moved for two ticks, the call is abandoned like a faulting one (signal 14). */
+#include <sys/time.h>
+static void on_tick(int sig)
+{
+    static uint64_t last; static int stale;
+    (void)sig;
+    uint64_t now = g_cnt.transitions + g_cnt.cases + g_cnt.faults;
+    if (g_fault_armed && now == last) {
+        if (++stale >= 2) { stale = 0; g_fault_addr = 0; g_fault_sig = SIGALRM; siglongjmp(g_fault_env, 1); }
+    } else { stale = 0; last = now; }
+}
+
 void fault_install(void)
 {
     static uint8_t altstack[1 << 16];
@@ -93,6 +106,14 @@ void fault_install(void)
     sigaction(SIGFPE, &sa, NULL);
     sigaction(SIGILL, &sa, NULL);
     sigaction(SIGABRT, &sa, NULL);
+    struct sigaction st;
+    memset(&st, 0, sizeof st);
+    st.sa_handler = on_tick;
+    st.sa_flags = SA_ONSTACK | SA_NODEFER;
+    sigemptyset(&st.sa_mask);
+    sigaction(SIGALRM, &st, NULL);
+    struct itimerval it = { {4, 0}, {4, 0} };
+    setitimer(ITIMER_REAL, &it, NULL);
 }
 
 /* ---------------- reporting ---------------- */
@@ -109,6 +130,9 @@ void violation(const char* prop, const char* key, const char* replay_case, const
         replay_case = lazy;
     }
     g_cnt.violations++;
+    /* a call that had to be abandoned by the watchdog costs seconds: after the third one this process reports what it has and stops */
+    static int hangs;
+    int stop_after = (g_fault_sig == SIGALRM && ++hangs >= 3);
     size_t i;
     char full[512];
     snprintf(full, sizeof full, "%s\t%s", prop, key);
@@ -120,7 +144,10 @@ void violation(const char* prop, const char* key, const char* replay_case, const
         nkeys++;
     }
     keys[i].n++;
-    if (keys[i].n > (uint64_t)g_max_per_key && !g_verbose) return;
+    if (keys[i].n > (uint64_t)g_max_per_key && !g_verbose) {
+        if (stop_after) { printf("S\tstopped early: three calls into the code under test did not return within the watchdog period\n"); emit_counters(prop); fflush(stdout); _exit(0); }
+        return;
+    }
     char detail[1024];
     va_list ap;
     va_start(ap, fmt);
@@ -128,6 +155,7 @@ void violation(const char* prop, const char* key, const char* replay_case, const
     va_end(ap);
     for (char* c = detail; *c; c++) if (*c == '\t' || *c == '\n') *c = ' ';
     printf("V\t%s\t%s\t%s\t%s\n", prop, key, replay_case ? replay_case : "", detail);
+    if (stop_after) { printf("S\tstopped early: three calls into the code under test did not return within the watchdog period\n"); emit_counters(prop); fflush(stdout); _exit(0); }
     fflush(stdout);
 }
 
